@@ -86,7 +86,7 @@ def check(prop, tier, seed, replay=None):
     variants = ["wasihost", "wasihostnt"] if prop == "C15" else ["wasihost"]
     exes = {v: build(v) for v in variants}
     build_s = time.time() - t0
-    rdir = os.path.join(SCRATCH, "verif-e3d-%s-%d" % (prop, os.getpid()))
+    rdir = os.path.join(SCRATCH, "verif-e3d-%s-%07d" % (prop, os.getpid()))
     os.makedirs(rdir, exist_ok=True)
 
     def replay_cmd(path):
@@ -117,6 +117,7 @@ def check(prop, tier, seed, replay=None):
         for c in pool.crashes:
             internal.append("worker died outside a simulated child: exit=%s idx=%s %s" % (c["exit"], c["idx"], c["stderr"][-400:]))
 
+    dump_hashes(prop, allres)
     by_sig = {}
     steps = switches = memev = simns = ops = 0
     faults, probes = {}, {}
